@@ -10,7 +10,12 @@ def one(d):
     wt = tempfile.mkdtemp(prefix="vsm-", dir="/tmp"); os.rmdir(wt)
     ev = tempfile.mkdtemp(prefix="vsmev-", dir="/tmp")
     try:
-        subprocess.check_call(["git", "-C", "/repo", "worktree", "add", "--detach", wt, "HEAD"], stdout=subprocess.DEVNULL, stderr=subprocess.DEVNULL)
+        for _try in range(20):
+            if subprocess.call(["git", "-C", "/repo", "worktree", "add", "--detach", wt, "HEAD"], stdout=subprocess.DEVNULL, stderr=subprocess.DEVNULL) == 0:
+                break
+            __import__("time").sleep(0.5 + 0.1 * _try)
+        else:
+            raise RuntimeError("git worktree add failed repeatedly")
         r = subprocess.run(["git", "-C", wt, "apply", os.path.join(d, "patch.diff")], capture_output=True, text=True)
         if r.returncode:
             return d, None, "patch does not apply"
@@ -43,4 +48,4 @@ for d, fired, err in res:
     tag = "OWN" if own in fired else ("other" if fired else "MISSED")
     print("%-8s %-6s %s" % (name, tag, json.dumps(fired)[:260]))
     out[name] = fired
-json.dump(out, open(os.path.join(VERIF, "selftest", "seed_matrix.json"), "w"), indent=1)
+json.dump(out, open(os.environ.get("SEED_MATRIX_OUT", os.path.join(VERIF, "selftest", "seed_matrix.json")), "w"), indent=1)
